@@ -227,6 +227,16 @@ func NewSchemaComponent(name string, schema Schema, cs Componenter, cfg Config) 
 		IsRenderFormatMethod: isFormatter,
 	}
 
+	if schema.Ref != nil {
+		// a component that is only a reference to an object or array component:
+		// a defined type (`type A B`) would not have B's MarshalJSON / UnmarshalJSON
+		// and would be encoded by reflection, under the Go field names
+		switch schema.Ref.Schema.Kind() {
+		case SchemaKindObject, SchemaKindArray:
+			sc.IsAlias = true
+		}
+	}
+
 	switch schema := schema.Type.(type) {
 	case RawBytesType:
 		sc.IsAlias = true
